@@ -835,7 +835,11 @@ func (c *clusterClient) doresultfn(
 				nc = c.redirectOrNew(addr, cc, cm.Slot(), mode)
 			}
 			if hasInit && ei < i { // find out if there is a transaction block or not.
-				for mi = i; mi >= 0 && !isMulti(commands[mi]) && !isExec(commands[mi]); mi-- {
+				mi = i
+				if isExec(commands[mi]) { // the redirected command is the EXEC itself: its block starts above it
+					mi--
+				}
+				for ; mi >= 0 && !isMulti(commands[mi]) && !isExec(commands[mi]); mi-- {
 				}
 				for ei = i; ei < len(commands) && !isMulti(commands[ei]) && !isExec(commands[ei]); ei++ {
 				}
